@@ -281,7 +281,19 @@ class Real:
     def __init__(self):
         self.gmod, self.gbmod, self.CRS, _ = _mods()
 
-    def call(self, name: str, objs: List[Any]):
+    @staticmethod
+    def as_form(objs: List[Any], form: int):
+        """the operand collection as a list / tuple / one-shot iterator / generator"""
+        form %= 4
+        if form == 0:
+            return list(objs)
+        if form == 1:
+            return tuple(objs)
+        if form == 2:
+            return iter(objs)
+        return (o for o in objs)
+
+    def call(self, name: str, objs: List[Any], form: int = 2):
         fam, m = name.split(".", 1)
         if fam == "Geometry":
             out = getattr(self.gmod.Geometry, m)(*objs)
@@ -292,7 +304,7 @@ class Real:
             return getattr(self.gbmod.GeoBox, m)(*objs)
         if fam == "geom":
             fn = getattr(self.gmod, m)
-            return fn(*objs) if m == "intersects" else fn(iter(objs))
+            return fn(*objs) if m == "intersects" else fn(self.as_form(objs, form))
         if fam == "geobox":
             fn = getattr(self.gbmod, m)
             return fn(list(objs)) if m.endswith("_conservative") else fn(*objs)
@@ -330,7 +342,8 @@ class Ctx:
         """one strict-table case: operands = raws tagged with the pool entries `ents`"""
         tags = [self.pool.rec(e[2]) for e in ents]
         line = f"c01 run {name} [{','.join(tags)}]"
-        self.cases.append({"line": line, "name": name, "ents": ents, "raws": raws, "kind": kind})
+        self.cases.append({"line": line, "name": name, "ents": ents, "raws": raws, "kind": kind,
+                           "form": len(self.cases)})
 
     # ---- outcome of the real call in the model's vocabulary
     def res_tag(self, name: str, spec, res) -> str:
@@ -359,7 +372,7 @@ class Ctx:
         try:
             with warnings.catch_warnings():
                 warnings.simplefilter("ignore")
-                res = self.real.call(name, objs)
+                res = self.real.call(name, objs, case.get("form", 2))
         except Exception as e:  # pylint: disable=broad-except
             exc = e
         strip = [self.raw.strip(o) for o in objs]
@@ -428,9 +441,12 @@ class Ctx:
                      sig=f"equal|{name.split('.')[0]}")
             tag = info["tag"]
             if tag not in (None, "-", "?empty"):
-                want = self.pool.rec(ents[0][2])
-                R.oracle(tag == want, f"result-crs-tag:{name}", cdesc,
-                         f"{name}: result CRS record {tag}, operands' CRS {want}", sig="tag", trivial=True)
+                # "tagged with the operands' CRS": any spelling of it will do for the property (the exact choice —
+                # the first operand's — is pinned by the correspondence with the model, not here)
+                by_rec = {self.pool.rec(e[2]): e[1] for e in self.pool.entries}
+                R.oracle(by_rec.get(tag, "?") == truths[0], f"result-crs-tag:{name}", cdesc,
+                         f"{name}: result CRS record {tag} does not denote the operands' CRS ({labels[0]})",
+                         sig="tag", trivial=True)
 
 
 def gen_strict(C: Ctx):
@@ -470,6 +486,15 @@ def gen_strict(C: Ctx):
                 C.add(name, [ea, eb], ss[:2], sk)
             for tr in triples:
                 C.add(name, list(tr), ss[:3], sk)
+    # the odd operand at every position — in particular the LAST — of streams of length 2..5
+    for name in ("geom.common_crs", "geom.multigeom", "geom.unary_union", "geom.unary_intersection"):
+        for n in range(2, 6):
+            for pos in range(n):
+                for base, odd in itertools.permutations(small, 2):
+                    es = [base] * n
+                    es[pos] = odd
+                    ss = [sets["polys"][i % 3] for i in range(n)]
+                    C.add(name, es, ss, "polys")
     # --- bounding boxes (symbolic here; with the real arithmetic in gen_bbox)
     def rbox():
         x0, y0 = rng.randint(-64, 64) / 8, rng.randint(-64, 64) / 8
@@ -491,6 +516,13 @@ def gen_strict(C: Ctx):
                 es = [base] * n
                 es[rng.randrange(n)] = rng.choice(pool)
             C.add(name, es, [rbox() for _ in range(n)], "bbox-stream")
+    for name in ("geom.bbox_union", "geom.bbox_intersection"):
+        for n in range(2, 6):
+            for pos in range(n):
+                for base, odd in itertools.permutations(small, 2):
+                    es = [base] * n
+                    es[pos] = odd
+                    C.add(name, es, [rbox() for _ in range(n)], "bbox-stream")
     for name in ("BoundingBox.__and__", "BoundingBox.__or__"):
         for (ea, eb) in pairs:
             for _ in range(2):
@@ -514,6 +546,13 @@ def gen_strict(C: Ctx):
         for tr in triples:
             for ks in (("g0", "shift", "far"), ("g0", "half", "shift"), ("shift", "g0", "res")):
                 C.add(name, list(tr), [gbs[k] for k in ks], "geobox:" + "/".join(ks))
+        for n in range(2, 6):
+            for pos in range(n):
+                for base, odd in itertools.permutations(small, 2):
+                    es = [base] * n
+                    es[pos] = odd
+                    ks = [("g0", "shift", "far", "shift", "g0")[i] for i in range(n)]
+                    C.add(name, es, [gbs[k] for k in ks], "geobox:" + "/".join(ks))
 
 
 def run_strict(C: Ctx):
@@ -886,7 +925,7 @@ def replay(R: Run, rec) -> int:
     kind = case.get("kind", "")
     gbs = geoboxes()
     if kind.startswith("geobox:"):
-        raws = [gbs[k] for k in kind.split(":", 1)[1].split("/")]
+        raws = [gbs[k] for k in kind.split(":", 1)[1].split("/")][: max(len(ents), 1)]
     elif kind == "geobox":
         raws = [gbs["g0"]]
     elif kind.startswith("bbox"):
@@ -899,7 +938,8 @@ def replay(R: Run, rec) -> int:
                 "mixed": [kinds["line"], kinds["multipolygon"], kinds["collection"]],
                 "points": [kinds["point"], partners["pt"], kinds["multipoint"]],
                 "lines": [kinds["line"], partners["L"], kinds["ring"]]}
-        raws = sets.get(kind, sets["polys"])[: len(ents)]
+        base = sets.get(kind, sets["polys"])
+        raws = [base[i % 3] for i in range(len(ents))]
     C.cases = []
     C.add(name, ents, raws, kind)
     c = C.cases[0]
